@@ -143,6 +143,7 @@ func expand(cs Case) Case {
 			rs = append(rs, placed{g.Scripts[i], g.Pos[i]})
 		}
 		out = placeCase(cs.Cfg, cs.StartSeq, rs...)
+		out.StartSeqs = cs.StartSeqs
 	}
 	out.Gen = nil
 	return out
@@ -243,6 +244,9 @@ func caseString(cs Case) string {
 	for _, st := range cs.Steps {
 		s = append(s, st.String())
 	}
+	if len(cs.StartSeqs) > 0 {
+		return cs.Cfg.String() + fmt.Sprintf(" seq0=%v: ", cs.StartSeqs) + strings.Join(s, " ")
+	}
 	return cs.Cfg.String() + fmt.Sprintf(" seq0=%d: ", cs.StartSeq) + strings.Join(s, " ")
 }
 
@@ -289,7 +293,7 @@ func hasSig(r Result, sig string) bool {
 
 // isolate cuts the packet sequence with the given segment number out of a batch.
 func isolate(cs Case, seg int) *Case {
-	out := Case{Cfg: cs.Cfg, Kind: cs.Kind, StartSeq: cs.StartSeq}
+	out := Case{Cfg: cs.Cfg, Kind: cs.Kind, StartSeq: cs.StartSeq, StartSeqs: cs.StartSeqs}
 	out.Steps = append(out.Steps, cs.Steps[0])
 	cur := 0
 	for _, st := range cs.Steps[1:] {
@@ -645,6 +649,16 @@ func main() {
 				cases = append(cases, Case{Cfg: c, Kind: "place", StartSeq: 65534, Gen: &Gen{Scripts: []string{"j"}, Pos: [][]int{{slot}}}})
 				counts["srtp_wrap_cases"]++
 				slow = append(slow, []int{len(cases) - 1})
+				if cfg.Shape != "1m1f" {
+					// the formats do not wrap together: one of them has wrapped (and sent one more packet) when the
+					// reader joins after the six packets, the other one is far from its wrap - their roll-over
+					// counters differ at the join
+					for _, st := range [][]uint16{{65534, 998}, {500, 65534}} {
+						cases = append(cases, Case{Cfg: c, Kind: "place", StartSeq: st[0], StartSeqs: st, Gen: &Gen{Scripts: []string{"j"}, Pos: [][]int{{6}}}})
+						counts["srtp_wrap_cases_formats_apart"]++
+						slow = append(slow, []int{len(cases) - 1})
+					}
+				}
 			}
 		}
 	}
